@@ -278,11 +278,13 @@ def bfs_paths(init_key, edges):
     return paths
 
 
-def cover_walks(init_key, edges, nworkers):
+def cover_walks(init_key, edges, nworkers, local_budget=48):
     """edges: dict (from_key, op_key) -> to_key of a deterministic model graph.
     Returns, per worker, a list of walks; a walk is a list of (op_key, to_key) starting at init_key
     (a new walk == reset of the real object).  Together the walks traverse every edge reachable from
-    init at least once; workers own disjoint sets of source states."""
+    init at least once; workers own disjoint sets of source states.  Strategy: stay in the current
+    state while it has untraversed edges (self-loops first), otherwise look for a state with untraversed
+    edges within a small neighbourhood, otherwise reset and follow the BFS-tree path to the next one."""
     from collections import deque
     out_ops = {}
     nav = {}
@@ -290,37 +292,46 @@ def cover_walks(init_key, edges, nworkers):
         out_ops.setdefault(a, []).append((op, b))
         if a != b:
             nav.setdefault(a, {}).setdefault(b, op)
-    reach = {init_key}
+    parent = {init_key: None}
+    order = [init_key]
     dq = deque([init_key])
     while dq:
         s = dq.popleft()
-        for b in nav.get(s, {}):
-            if b not in reach:
-                reach.add(b); dq.append(b)
-    srcs = sorted(k for k in out_ops if k in reach)
+        for b, op in nav.get(s, {}).items():
+            if b not in parent:
+                parent[b] = (s, op)
+                order.append(b)
+                dq.append(b)
+
+    def tree_path(t):
+        steps = []
+        while parent[t] is not None:
+            ps, op = parent[t]
+            steps.append((op, t))
+            t = ps
+        steps.reverse()
+        return steps
+    srcs = [k for k in order if k in out_ops]
     result = []
     for w in range(nworkers):
-        mine = {s: list(out_ops[s]) for i, s in enumerate(srcs) if i % nworkers == w}
-        # self-loops first: they keep the walk in place
-        for s in mine:
-            mine[s].sort(key=lambda e: (e[1] != s, e[0]))
-        remaining = sum(len(v) for v in mine.values())
+        mine = {s: deque(sorted(out_ops[s], key=lambda e: (e[1] != s, e[0]))) for i, s in enumerate(srcs) if i % nworkers == w}
+        todo = deque(s for i, s in enumerate(srcs) if i % nworkers == w)
         walks = []
-        cur = init_key
         walk = []
-        while remaining > 0:
+        cur = init_key
+        while True:
             if mine.get(cur):
-                op, b = mine[cur].pop(0)
-                remaining -= 1
+                op, b = mine[cur].popleft()
                 walk.append((op, b))
                 cur = b
                 continue
-            # navigate to the nearest state that still has unvisited edges
             prev = {cur: None}
             dq = deque([cur])
             target = None
-            while dq:
+            budget = local_budget
+            while dq and budget > 0:
                 s = dq.popleft()
+                budget -= 1
                 if mine.get(s):
                     target = s
                     break
@@ -328,23 +339,24 @@ def cover_walks(init_key, edges, nworkers):
                     if b not in prev:
                         prev[b] = (s, op)
                         dq.append(b)
-            if target is None:
-                if cur == init_key and not walk:
-                    break  # unreachable leftovers (cannot happen: srcs are reachable)
-                if walk:
-                    walks.append(walk)
-                walk = []
-                cur = init_key
+            if target is not None:
+                steps = []
+                s = target
+                while prev[s] is not None:
+                    ps, op = prev[s]
+                    steps.append((op, s))
+                    s = ps
+                walk.extend(reversed(steps))
+                cur = target
                 continue
-            steps = []
-            s = target
-            while prev[s] is not None:
-                ps, op = prev[s]
-                steps.append((op, s))
-                s = ps
-            for (op, b) in reversed(steps):
-                walk.append((op, b))
-            cur = target
+            while todo and not mine.get(todo[0]):
+                todo.popleft()
+            if not todo:
+                break
+            if walk:
+                walks.append(walk)
+            walk = list(tree_path(todo[0]))
+            cur = todo[0]
         if walk:
             walks.append(walk)
         result.append(walks)
